@@ -708,6 +708,18 @@ def run(ctx):
     tmp_root = Path(tempfile.mkdtemp(prefix="c32_"))
     results: List[dict] = []
     cases = gen_cases(ctx.rng, ctx.tier)
+    if ctx.tier == "quick":      # quick: at most two levels (dataset / calc / scalar ...) of every (family, variant); thorough: all
+        byv: Dict[Tuple[str, str], List[dict]] = {}
+        for c in cases:
+            parts = c["shape"].split(":")
+            v = ":".join(parts[:-1]) if len(parts) > 1 and parts[-1] in LEVELS else c["shape"]
+            byv.setdefault((c["family"], v), []).append(c)
+        cases = []
+        for k in byv:
+            g = byv[k]
+            ctx.rng.shuffle(g)
+            g.sort(key=lambda c: 0 if c["shape"].split(":")[-1] in ("dataset-measure", "ds", "ds-ds") else 1)   # one dataset-level case always
+            cases += g[:2]
     n_corpus = 60 if ctx.tier == "quick" else None
     ccases = corpus_cases(ctx.rng, n_corpus)
     stored = load_stored()
